@@ -73,6 +73,8 @@ impl Prop for C09 {
             mode,
             verify_version: gate == 0,
             explicit_gate: gate != 2,
+            flushes: vec![],
+            buffered: false,
             inbound,
             reads,
             writes: vec![],
@@ -117,6 +119,8 @@ impl Prop for C09 {
             mode,
             verify_version: verify,
             explicit_gate: verify || rng.chance(1, 2),
+            flushes: vec![],
+            buffered: false,
             inbound,
             reads,
             writes: vec![],
